@@ -10,6 +10,9 @@ sys.path.insert(0, os.path.dirname(HERE))
 from vt import env  # noqa: E402
 
 env.bootstrap()
+if os.environ.get('VT_ONE_CPU'):
+    # an environment pass: a machine / container / batch slot with one usable CPU
+    os.sched_setaffinity(0, {sorted(os.sched_getaffinity(0))[0]})
 
 from vt import explore  # noqa: E402
 
